@@ -35,6 +35,34 @@ func checkC10(c *Ctx, r *Report) {
 	foldRangeRule(c, r, "C10.R3.canonical-fold", "CanonicalName", "names containing the letter left out are signed in the case they were written in: signatures depend on letter case")
 	r.rule("C10.R2.int-to-bytes", 1, "ECDSA r and s are left-padded to exactly the curve width")
 	intToBytesRule(c, r, "C10.R2.int-to-bytes")
+	// the RRset test that opens Verify compares owners like every other name comparison: case-insensitively
+	r.rule("C10.R1.rrset-owner-case", 1, "IsRRset compares owner names through the case-insensitive comparator")
+	if fn := c.ssaFunc("IsRRset"); fn == nil {
+		r.cerr("C10.R1.rrset-owner-case", "IsRRset", "function not found")
+	} else {
+		r.fn("IsRRset")
+		var problems []string
+		viaEqual := false
+		for _, ci := range callsIn(fn, "isDuplicateName", "equal") {
+			a := ci.Common().Args
+			if anyIn(sliceOf(a[0]), readsField("RR_Header", "Name")) && anyIn(sliceOf(a[1]), readsField("RR_Header", "Name")) {
+				viaEqual = true
+			}
+		}
+		allInstrs(fn, func(in ssa.Instruction) {
+			b, ok := in.(*ssa.BinOp)
+			if !ok || (b.Op != token.EQL && b.Op != token.NEQ) {
+				return
+			}
+			if anyIn(sliceOf(b.X), readsField("RR_Header", "Name")) && anyIn(sliceOf(b.Y), readsField("RR_Header", "Name")) {
+				problems = append(problems, fmt.Sprintf("%s: owner names are compared as Go strings: records of one RRset that spell the owner in different case are refused by Verify as 'bad rrset'", c.pos(b.Pos())))
+			}
+		})
+		if !viaEqual && len(problems) == 0 {
+			problems = append(problems, "IsRRset does not compare owner names")
+		}
+		r.check(len(problems) == 0, "C10.R1.rrset-owner-case", "IsRRset", c.pos(fn.Pos()), "isDuplicateName", "%s", strings.Join(problems, "; "))
+	}
 	r.rule("C10.R1.name-eq", 1, "the owner / signer name pre-checks compare through equal(), which folds exactly A-Z on both sides")
 	foldRule(c, r, "C10.R1.name-eq")
 	r.rule("C10.R3.copy-faithful", 81, "the copy rawSignatureData canonicalises carries field i of the record in field i")
